@@ -269,22 +269,71 @@ def r3(idx, rep):
 
 
 WRITE_SITES = {
-    # function -> allowed roots of the written path
-    "ResultSerializer._save": {"run_dir"},
-    "ResultSerializer.get_run_dir": {"run_dir"},
-    "ResultSerializer.get_instance_dir": {"run_dir"},
-    "ResultRegistrar.metadata_update": {"mp"},
+    # function -> allowed *ultimate* roots of the written path (locals resolved through their assignments; parameters, attributes
+    # and producing calls are what remains)
+    "ResultSerializer._save": {"call:get_instance_dir", "param:run_dir"},
+    "ResultSerializer.get_run_dir": {"self.base_dir"},
+    "ResultSerializer.get_instance_dir": {"param:run_dir"},
+    "ResultRegistrar.metadata_update": {"self.manifest_path"},
     "ResultRegistrar.manifest": {"self.manifest_path"},
-    "ResultRegistrar.result_path": {"rdir"},
-    "ResultsRegistrar.metadata_update": {"mp"},
+    "ResultRegistrar.result_path": {"self.result.run_dir", "self.result_serializer.get_instance_dir", "call:get_instance_dir"},
+    "ResultsRegistrar.metadata_update": {"mdata.manifest_path"},
     "ResultsRegistrar.manifest_path": {"self.run_dir"},
-    "ResultsManager._do_transfers": {"pathto"},       # transfer-mode: writes under the configured transfer root, by design
-    "ResultsManager._path_to_transfer_to": {"rd"},    # same
-    "ResultsManager._path_to_result": {"r"},
+    "ResultsManager._do_transfers": {"t[3]", "param:transfers", "call:transfer_paths"},       # transfer-mode: writes under the configured transfer root, by design
+    "ResultsManager._path_to_transfer_to": {"result.csvpath.config.transfer_root"},    # same
+    "ResultsManager._path_to_result": {"result.instance_dir"},
     "RunRegistrar.manifest": {"self.archive", "self.manifest_path"},   # the archive-level manifest, not a run's file
-    "RunRegistrar.metadata_update": {"mp"},
-    "CsvLineSpooler.load_if": {"p"},
+    "RunRegistrar.metadata_update": {"self.manifest_path"},
+    "CsvLineSpooler.load_if": {"call:_instance_data_file_path", "self.result.data_file_path"},
 }
+
+
+def _ult_roots(fi, e, seen=None, depth=8):
+    """ultimate roots of a path expression: first argument of os.path.join / f-string head / left operand, with local names resolved
+    through *all* their assignments in the function (union; cycles cut), so that renaming or introducing a local changes nothing"""
+    seen = seen if seen is not None else set()
+    if depth == 0:
+        return {unparse(e)}
+    if isinstance(e, ast.Call) and call_name(e) == "join" and e.args:
+        return _ult_roots(fi, e.args[0], seen, depth - 1)
+    if isinstance(e, ast.JoinedStr):
+        for v in e.values:
+            if isinstance(v, ast.FormattedValue):
+                return _ult_roots(fi, v.value, seen, depth - 1)
+        return {"<literal>"}
+    if isinstance(e, ast.BinOp):
+        return _ult_roots(fi, e.left, seen, depth - 1)
+    if isinstance(e, ast.Name):
+        if e.id in seen:
+            return set()
+        seen = seen | {e.id}
+        a = fi.node.args
+        params = {x.arg for x in a.args + a.kwonlyargs + a.posonlyargs}
+        out = {"param:" + e.id} if e.id in params else set()
+        vals = []
+        for n in walk_no_nested(fi.node):
+            if isinstance(n, ast.Assign):
+                for t in n.targets:
+                    if isinstance(t, ast.Name) and t.id == e.id:
+                        vals.append(n.value)
+            elif isinstance(n, ast.For) and isinstance(n.target, ast.Name) and n.target.id == e.id:
+                vals.append(n.iter)
+        for v in vals:
+            out |= _ult_roots(fi, v, seen, depth - 1)
+        return out or (set() if vals else {"local:" + e.id})
+    if isinstance(e, ast.Call):
+        return {"call:" + (call_name(e) or unparse(e.func))}
+    if isinstance(e, ast.Subscript):
+        # a slice of a path (its directory part) is rooted where the path is; an element of a container is named as such
+        if isinstance(e.slice, ast.Slice):
+            return _ult_roots(fi, e.value, seen, depth - 1)
+        return {unparse(e)}
+    d = dotted(e)
+    if d:
+        return {d}
+    if isinstance(e, ast.Constant):
+        return {"<literal>"}
+    return {unparse(e)}
 
 
 def r4(idx, rep):
@@ -320,9 +369,10 @@ def r4(idx, rep):
                 else:
                     continue
                 n += 1
-                roots = _roots(path)
-                key = f"{rel}::{fi.qual} writes {'|'.join(sorted(roots))}"
-                allowed = WRITE_SITES.get(fi.qual)
+                roots = _ult_roots(fi, path)
+                own = K.owner_of(idx, fi, set(WRITE_SITES))
+                key = f"{rel}::{own or fi.qual} writes {'|'.join(sorted(roots))}"
+                allowed = WRITE_SITES.get(own)
                 if allowed is None:
                     rep.fail("R4", key, f"`{unparse(c)[:120]}`: a new file-writing site in the archive code; every write must target the current run's directory", K.where(fi, c))
                 else:
